@@ -395,9 +395,30 @@ class ValueTransformation(DetectionItemTransformation):
                         # Unlike FieldMappingTransformation (which may add wildcards to values
                         # making round-tripping incorrect), ValueTransformation operates on the
                         # values directly and the new values serve as the serializable original.
-                        r.original_value = r.value.copy()
+                        # This is only correct if the modifiers of the item leave the new values
+                        # unchanged when they are applied again after loading the serialized rule
+                        # (e.g. contains on a value that still has its wildcards). Else (base64,
+                        # wide, replaced values without the wildcards of the modifier etc.) the
+                        # serialized item would get another meaning and serialization is disabled.
+                        if self._modifiers_keep_values(r):
+                            r.original_value = r.value.copy()
+                        else:
+                            r.disable_conversion_to_plain()
                     detection.detection_items[i] = r
                     self.processing_item_applied(r)
+
+    @staticmethod
+    def _modifiers_keep_values(detection_item: SigmaDetectionItem) -> bool:
+        """Check if applying the modifiers of the detection item to its current values yields the same values."""
+        if len(detection_item.modifiers) == 0:
+            return True
+        try:
+            reloaded = SigmaDetectionItem(
+                detection_item.field, detection_item.modifiers, detection_item.value.copy()
+            )
+            return bool(reloaded.value == detection_item.value)
+        except Exception:
+            return False
 
     @abstractmethod
     def apply_value(
